@@ -105,7 +105,7 @@ class PythonGenerator(generator.Generator):
         exp.Concat: lambda self, e: self.func(
             "SAFECONCAT" if e.args.get("safe") else "CONCAT", *e.expressions
         ),
-        exp.Distinct: lambda self, e: f"set({self.sql(e, 'this')})",
+        exp.Distinct: lambda self, e: f"set({self.expressions(e, flat=True)})",
         exp.Div: _div_sql,
         exp.DPipe: _dpipe_sql,
         exp.Extract: lambda self, e: f"EXTRACT('{e.name.lower()}', {self.sql(e, 'expression')})",
